@@ -314,10 +314,13 @@ impl WireLens {
         let _ = std::fs::remove_dir_all(&dir);
         std::fs::create_dir_all(&dir).map_err(|e| e.to_string())?;
         let config = srv::build_config(&dir, &scn.cfg, srv::ENC_KEY_A);
-        let inc = srv::start(config, &scn.cfg, true)?;
+        let mut cfg = scn.cfg.clone();
+        cfg.transport = "quic".into(); // the QUIC listener too: all three transports answer the same polls
+        let inc = srv::start(config, &cfg, true)?;
         let rt = &inc.rt;
         let tcp = rt.block_on(srv::tcp_root(inc.tcp))?;
         let http = rt.block_on(srv::http_root(inc.http.unwrap()))?;
+        let quic = rt.block_on(srv::quic_root(inc.quic.unwrap()))?;
         let s1 = Identifier::numeric(1).unwrap();
         let t1 = Identifier::numeric(1).unwrap();
         rt.block_on(async {
@@ -361,12 +364,12 @@ impl WireLens {
                 expect.push(vec![expect.len() as u64, (id % 1_000_000_007) as u64, n as u64, fnv(&payload), hc, hh]);
                 msgs.push(Message::new(if id == 0 { None } else { Some(id) }, Bytes::from(payload), hs));
             }
-            let via_http = rng.chance(1, 3);
+            let via = rng.below(4);
             let r = rt.block_on(async {
-                if via_http {
-                    http.send_messages(&s1, &t1, &Partitioning::partition_id(1), &mut msgs).await
-                } else {
-                    tcp.send_messages(&s1, &t1, &Partitioning::partition_id(1), &mut msgs).await
+                match via {
+                    0 => http.send_messages(&s1, &t1, &Partitioning::partition_id(1), &mut msgs).await,
+                    1 => quic.send_messages(&s1, &t1, &Partitioning::partition_id(1), &mut msgs).await,
+                    _ => tcp.send_messages(&s1, &t1, &Partitioning::partition_id(1), &mut msgs).await,
                 }
             });
             if let Err(e) = r {
@@ -383,13 +386,13 @@ impl WireLens {
             }
         }
         for (o, c) in windows {
-            for transport in ["tcp", "http"] {
+            for transport in ["tcp", "http", "quic"] {
                 i += 1;
                 let r = rt.block_on(async {
-                    if transport == "tcp" {
-                        tcp.poll_messages(&s1, &t1, Some(1), &cons, &PollingStrategy::offset(o), c, false).await
-                    } else {
-                        http.poll_messages(&s1, &t1, Some(1), &cons, &PollingStrategy::offset(o), c, false).await
+                    match transport {
+                        "tcp" => tcp.poll_messages(&s1, &t1, Some(1), &cons, &PollingStrategy::offset(o), c, false).await,
+                        "quic" => quic.poll_messages(&s1, &t1, Some(1), &cons, &PollingStrategy::offset(o), c, false).await,
+                        _ => http.poll_messages(&s1, &t1, Some(1), &cons, &PollingStrategy::offset(o), c, false).await,
                     }
                 });
                 let want: Vec<Vec<u64>> = expect.iter().skip(o as usize).take(c as usize).cloned().collect();
@@ -413,6 +416,7 @@ impl WireLens {
         }
         drop(tcp);
         drop(http);
+        drop(quic);
         let _ = srv::stop(inc, false);
         let _ = std::fs::remove_dir_all(&dir);
         Ok(())
